@@ -25,6 +25,7 @@ import (
 	"sync"
 	"time"
 
+	"cuelang.org/go/verifsim/autoyield"
 	"cuelang.org/go/verifsim/sim"
 )
 
@@ -54,15 +55,24 @@ type propCfg struct {
 	// (modload.spotCheckRoots); the self-test then requires equal outcomes only and reports
 	// how many run indices had differing logs.
 	OrderResidual bool
+	// AutoYield: packages of /repo (relative import paths) whose files get a scheduling
+	// point in front of every sync and sync/atomic operation when the worker is built
+	// (autoyield package; go build -overlay, /repo itself is not touched).
+	AutoYield   []string
+	AutoExclude []string
 }
+
+var autoResults = map[string]*autoyield.Result{}
 
 var props = map[string]*propCfg{
 	"C19": {
 		ID: "C19", Pkg: "./c19/", Level: "exploration", Race: true, Batch: 8,
+		AutoYield:   []string{"cue/...", "internal/...", ""},
+		AutoExclude: []string{"internal/simhook", "internal/par", "internal/mod/...", "internal/encoding/...", "internal/task", "internal/cueversion", "cue/load/...", "cue/interpreter/..."},
 		Quick:    tierCfg{Runs: 3000, Budget: 300 * time.Second, Workers: 16},
 		Thorough: tierCfg{Runs: 600000, Budget: 45 * time.Minute, Workers: 16},
 		Assume: []string{
-			"context switches happen at the simhook yield points only (Vertex.unify, label interning, builtin/instance index, type caches); the race detector covers memory-level races between any two accesses that both happen in a run, wherever the switches were",
+			"context switches happen at the simhook yield points (Vertex.unify, label interning, builtin/instance index, type caches) and in front of every sync and sync/atomic operation of the cue and internal packages as they are in the tree being checked (inserted at build time through go build -overlay; listed under coverage.auto_yield); the race detector covers memory-level races between any two accesses that both happen in a run, wherever the switches were",
 			"the sequential reference is computed after the concurrent phase on a fresh context in the same process (label indexes are process-global)",
 			"GOMAXPROCS=1 inside the worker; the hand-off between tasks creates no happens-before edge",
 		},
@@ -148,6 +158,15 @@ func buildWorker(p *propCfg) string {
 	args := []string{"test", "-c", "-tags", "verif", "-vet=off", "-o", bin}
 	if p.Race {
 		args = append(args, "-race")
+	}
+	if len(p.AutoYield) > 0 {
+		res, err := autoyield.Instrument(goBin(), goEnv(), root, p.Pkg, "verif", "cuelang.org/go", p.AutoYield, p.AutoExclude,
+			filepath.Join(root, "out", "overlay", p.ID))
+		if err != nil {
+			trouble("instrumenting the synchronisation operations of /repo for %s failed: %v", p.ID, err)
+		}
+		autoResults[p.ID] = res
+		args = append(args, "-overlay", res.Overlay)
 	}
 	args = append(args, p.Pkg)
 	cmd := exec.Command(goBin(), args...)
@@ -599,6 +618,9 @@ func writeEvidence(p *propCfg, tier string, seed uint64, t *sim.WorkerResult, di
 		"build_s":             buildS,
 		"explore_s":           exploreS,
 		"go":                  goBin(),
+	}
+	if r := autoResults[p.ID]; r != nil {
+		cov["auto_yield"] = r
 	}
 	ev := map[string]any{
 		"property_id": p.ID,
